@@ -94,4 +94,19 @@ theorem C04_decimal_digits_reject (l r : List Char) (c : Char) (hc : c.isDigit =
     Codec.digitsVal (l ++ c :: r) = none :=
   Codec.digitsVal_nondigit l r c hc
 
+/-- … and on everything below 2^52: every positive finite double with a negative binary exponent
+    (all subnormals, all normals `< 2^52`) is accepted with the exact decimal expansion of its
+    binary value `M·2^(-k) = M·5^k·10^(-k)` -/
+theorem C04_decimal_exact_frac_accepted (n k : Nat) (hn : 0 < n) (he : n / 2 ^ 52 < 1075)
+    (hk : (if n / 2 ^ 52 = 0 then 1074 else 1075 - n / 2 ^ 52) = k) :
+    Codec.decIsKey ⟨false, (if n / 2 ^ 52 = 0 then n % 2 ^ 52 else 2 ^ 52 + n % 2 ^ 52) * 5 ^ k, -(k : Int)⟩
+      (n : Int) = true :=
+  Codec.decIsKey_exact_frac n k hn he hk
+
+/-- the oracle is satisfiable at every finite key of either sign (the exact value is accepted):
+    a correct encoder can always pass it, it never demands the impossible -/
+theorem C04_decimal_satisfiable (k : Int) (hk : k.natAbs / 2 ^ 52 < 2047) :
+    ∃ d : Codec.Dec, Codec.decIsKey d k = true :=
+  Codec.decIsKey_satisfiable k hk
+
 end Sod.Props
